@@ -137,6 +137,18 @@ def gen_scenario(seed, family="mixed"):
         u0 += [["submit", k] for k in range(big)]
         return {"kind": "reusable", "max_workers": big, "timeout": None, "cpu_count": 2, "tasks": tasks, "family": "saturate",
                 "users": [u0], "sched": {"p_timeout": 0.0, "p_crash": 0.0, "max_crashes": 0}}
+    if family == "saturatetmo":
+        # as `saturate`, on a pool with an idle time-out: workers may leave between the submissions (and while items
+        # are dispatched but not yet read); whatever leaves must be replaced as long as work is outstanding
+        mw = rnd.choice([2, 2, 3])
+        nt = mw + rnd.randint(0, 2)
+        u0 = [["create"]]
+        for k in range(nt):
+            if rnd.random() < 0.5:
+                u0 += [["idle"]] * rnd.choice([3, 8, 15])
+            u0.append(["submit", k])
+        return {"kind": "plain", "max_workers": mw, "timeout": 5, "tasks": [{"body": "ok"}] * nt, "family": family,
+                "users": [u0], "sched": {"p_timeout": rnd.choice([0.1, 0.3, 0.5]), "p_crash": 0.0, "max_crashes": 0}}
     if family == "saturate":
         mw = rnd.choice([1, 2, 3])
         nt = mw + rnd.randint(0, 3)
